@@ -11,7 +11,7 @@ From J5V.lib Require Import Outcome Json.
 From J5V.model Require Import CodecTypes CodecDecScalar CodecDec CodecDecTree.
 From J5V.proofs Require Import CodecDecProofs CodecDecStored CodecDecMsgSorted CodecDecSupport CodecDecLocal
                                CodecDecTreeUnfold CodecDecTreeFuel CodecDecExposed CodecDecOneofPair CodecDecReorder
-                               CodecDecTreeProofs.
+                               CodecDecTreeProofs CodecDecOneofReorder.
 Import ListNotations.
 Local Open Scope N_scope.
 
@@ -165,8 +165,9 @@ Section Lenient2.
       lookup e ref = Some (SObject props) -> null_members props nulls -> (nulls = [] \/ ms <> []) ->
       Permutation (nulls ++ ms) ms1 -> lenient_members props ms1 ms' ->
       lenient (FObject ref) (JObj ms) (JObj ms')
-  | L_oneof ref props ms ms' :
-      lookup e ref = Some (SOneof props) -> lenient_members props ms ms' ->
+  | L_oneof ref props ms ms1 ms' :
+      lookup e ref = Some (SOneof props) -> Permutation ms ms1 -> (type_count ms <= 1)%nat ->
+      lenient_members props ms1 ms' ->
       lenient (FOneof ref) (JObj ms) (JObj ms')
   | L_array item js js' : lenient_items item js js' -> lenient (FArray item) (JArr js) (JArr js')
   | L_map item ms ms' : lenient_entries item ms ms' -> lenient (FMap item) (JObj ms) (JObj ms')
@@ -225,6 +226,15 @@ Section Lenient2.
   Proof.
     induction ms as [|[k0 v0] r IH]; intros H; [contradiction|]. rewrite msize_cons.
     destruct H as [H|H]; [injection H as -> ->; lia|specialize (IH H); lia].
+  Qed.
+
+  Lemma msize_perm ms ms1 : Permutation ms ms1 -> msize ms = msize ms1.
+  Proof.
+    induction 1 as [|[k v] l l' P IH|[k1 v1] [k2 v2] l|l l' l'' P1 IH1 P2 IH2].
+    - reflexivity.
+    - rewrite !msize_cons, IH. reflexivity.
+    - rewrite !msize_cons. lia.
+    - congruence.
   Qed.
 
   (* ------------------------------------------------------------ one member value replaced by a lenient one *)
@@ -325,7 +335,7 @@ Section Lenient2.
   Proof.
     intros HO HN Hsz Hl H. inversion Hl as [ty j | k j j' Hc Hc' Hn Hs | ref prefix opts s s' Hlk Ho
                                           | ref props ms nulls ms1 ms' Hlk Hnull Hne P Hm
-                                          | ref props ms ms' Hlk Hm | it js js' Hi | it ms ms' He]; subst.
+                                          | ref props ms ms1 ms' Hlk Pn Hcn Hm | it js js' Hi | it ms ms' He]; subst.
     - exists f. exact H.
     - exists f. unfold elem in *. rewrite Hc in H. rewrite Hc', <- Hs. exact H.
     - exists f. unfold elem in *. rewrite Hlk in *. rewrite <- Ho. exact H.
@@ -335,7 +345,8 @@ Section Lenient2.
       exists f'. rewrite E'. exact H.
     - unfold elem in *. rewrite Hlk in *. rewrite jsize_obj in Hsz.
       destruct (tr_oneof orc e f d props ms [] [] [] None) as [sub| | |] eqn:E; cbn [omap obind] in H; try discriminate.
-      destruct (HN props ms ms' ltac:(lia) Hm f d [] [] [] None sub wf_nil E) as (f' & E').
+      destruct (reordered_oneof orc e d props ms ms1 [] [] [] None sub f (Henv ref props (or_intror Hlk)) Pn Hcn wf_nil E) as (f0 & E0).
+      destruct (HN props ms1 ms' ltac:(rewrite <- (msize_perm ms ms1 Pn); lia) Hm f0 d [] [] [] None sub wf_nil E0) as (f' & E').
       exists f'. rewrite E'. exact H.
     - discriminate.
     - discriminate.
@@ -373,7 +384,7 @@ Section Lenient2.
     intros HO HN HA HM ty j j' Hsz Hl f d p m m' Hty W H. revert H. revert Hty.
     inversion Hl as [ty0 j0 | k j0 j0' Hc Hc' Hn Hs | ref prefix opts s s' Hlk Ho
                     | ref props ms nulls ms1 ms' Hlk Hnull Hne P Hm
-                    | ref props ms ms' Hlk Hm | item js js' Hi | item ms ms' He]; subst; intros Hty H.
+                    | ref props ms ms1 ms' Hlk Pn Hcn Hm | item js js' Hi | item ms ms' He]; subst; intros Hty H.
     - exists f. exact H.
     - destruct f as [|f]; [discriminate|]. exists (S f). rewrite tr_present_S in *. rewrite Hty in *.
       rewrite Hc in H. rewrite Hc', <- Hs. exact H.
@@ -394,7 +405,8 @@ Section Lenient2.
     - (* oneof *)
       destruct f as [|f]; [discriminate|]. rewrite tr_present_S in H. rewrite Hty, Hlk in H. rewrite jsize_obj in Hsz.
       destruct (p_path p) as [|a r] eqn:Ep.
-      + destruct (HN props ms ms' ltac:(lia) Hm f d m [] [] None m' W H) as (f' & H').
+      + destruct (reordered_oneof orc e d props ms ms1 m [] [] None m' f (Henv ref props (or_intror Hlk)) Pn Hcn W H) as (f0 & H0).
+        destruct (HN props ms1 ms' ltac:(rewrite <- (msize_perm ms ms1 Pn); lia) Hm f0 d m [] [] None m' W H0) as (f' & H').
         exists (S f'). rewrite tr_present_S, Hty, Hlk, Ep. exact H'.
       + destruct (holder_swap_ex (a :: r) m _
                     (fun f' n h => let '(sub, h1) := msg_mutable (p_siblings p) n h in
@@ -403,7 +415,8 @@ Section Lenient2.
         { intros n0 h r0 Wh Hk. pose proof (proj1 (wf_mutable (p_siblings p) n0 h Wh)) as Ws.
           destruct (msg_mutable (p_siblings p) n0 h) as [sub h1]. cbn [fst] in Ws.
           destruct (tr_oneof orc e f d props ms sub [] [] None) as [sub'| | |] eqn:E; cbn [obind] in Hk; try discriminate.
-          destruct (HN props ms ms' ltac:(lia) Hm f d sub [] [] None sub' Ws E) as (f' & E').
+          destruct (reordered_oneof orc e d props ms ms1 sub [] [] None sub' f (Henv ref props (or_intror Hlk)) Pn Hcn Ws E) as (f0 & E0).
+          destruct (HN props ms1 ms' ltac:(rewrite <- (msize_perm ms ms1 Pn); lia) Hm f0 d sub [] [] None sub' Ws E0) as (f' & E').
           exists f'. rewrite E'. exact Hk. }
         exists (S f'). rewrite tr_present_S, Hty, Hlk, Ep. exact H'.
     - (* array *)
@@ -493,6 +506,29 @@ Proof.
   destruct (lenient_object orc e Henv props ms nulls ms1 ms' _ 0 [] [] m' (Henv root props (or_introl Hl)) Hnull Hne P Hm wf_nil Hd)
     as (f' & Hf').
   exact (settle_at orc e root bs' ms' rest' me' props m' f' Hl Hlex' Hf').
+Qed.
+
+(* a root that is itself a oneof *)
+Theorem lenient_document_oneof orc e root props bs bs' ms ms1 ms' rest rest' me me' m' :
+  env_ok e -> lookup e root = Some (SOneof props) ->
+  lex bs = (tokens_of (JObj ms) ++ rest, me) -> lex bs' = (tokens_of (JObj ms') ++ rest', me') ->
+  Permutation ms ms1 -> (type_count ms <= 1)%nat -> lenient_members orc e props ms1 ms' ->
+  decode_bytes orc e root bs = Ok m' -> decode_bytes orc e root bs' = Ok m'.
+Proof.
+  intros Henv Hl Hlex Hlex' P Hc Hm Hd.
+  rewrite (decode_bytes_tree orc e root bs (JObj ms) rest me Hlex) in Hd. unfold tr_decode in Hd. rewrite Hl in Hd.
+  destruct (reordered_oneof orc e 0 props ms ms1 [] [] [] None m' _ (Henv root props (or_intror Hl)) P Hc wf_nil Hd) as (f0 & H0).
+  destruct (level_all orc e Henv (msize ms1)) as (_ & _ & HN & _).
+  destruct (HN props ms1 ms' (le_n _) Hm f0 0 [] [] [] None m' wf_nil H0) as (f' & Hf').
+  pose proof (decode_bytes_total orc e root bs') as [Hnp Hnf].
+  rewrite (decode_bytes_tree orc e root bs' (JObj ms') rest' me' Hlex') in *.
+  unfold tr_decode in *. rewrite Hl in *.
+  pose proof (tr_oneof_more_fuel orc e f' (S (jsize (JObj ms'))) 0 props ms' [] [] [] None _ Hf' ltac:(discriminate)) as H1.
+  destruct (tr_oneof orc e (S (jsize (JObj ms'))) 0 props ms' [] [] [] None) as [x|c|s|] eqn:E; try congruence; try discriminate.
+  - pose proof (tr_oneof_more_fuel orc e (S (jsize (JObj ms'))) f' 0 props ms' [] [] [] None _ E ltac:(discriminate)) as H2.
+    rewrite Nat.add_comm in H2. congruence.
+  - pose proof (tr_oneof_more_fuel orc e (S (jsize (JObj ms'))) f' 0 props ms' [] [] [] None _ E ltac:(discriminate)) as H2.
+    rewrite Nat.add_comm in H2. congruence.
 Qed.
 
 Lemma env_ok_of_check e : CodecDecCommute.env_commute e = true -> env_ok e.
